@@ -178,6 +178,14 @@ def c11 : List String → String
     | some ss =>
       let st := Cfg.readGitConfig Gen.safeKeys ss
       s!"vals=[{String.intercalate "," (canonVals st.vals)}] exts=[{String.intercalate "," (sortStr (st.exts.map hex))}] remotes=[{String.intercalate "," (sortStr (st.remotes.map hex))}]"
+  | ["get", srcs, key] =>
+    -- the lookup the consumers use: the LAST value stored for the key, empty or not
+    match (srcs.splitOn ";").mapM parseSource, unhex key with
+    | some ss, some k =>
+      (match Cfg.get (Cfg.readGitConfig Gen.safeKeys ss) k with
+       | some v => "some:" ++ hex v
+       | none => "none")
+    | _, _ => "bad-op"
   | _ => "bad-op"
 
 def parseLst (s : String) : Option Rd2.Lst :=
